@@ -344,6 +344,39 @@ theorem external_edge_length (cfg : Cfg) (d dd : Nat) (h1 : 1 ≤ dd) (hsum : d 
     have := neighbours_count (2 ^ d) _ (EdgeInternal.two_le_pow (by omega)) hp
     split <;> simp_all
 
+/-! ## the geometric fact, in one statement -/
+
+/-- **the facing side / corner** (parts level, every `1 ≤ n`, `n·2^k ≤ 2^32`): let `p` be the neighbour of `q` in
+    direction `f` (equivalently — `from_dir_spec`, `from_dir_unique` — `q` is a neighbour of `p` and `f` is the direction
+    `from_` computed by the code).  A descendant `Q` of `q`, `k` levels down, shares a vertex (as points of the sphere)
+    with some descendant of `p` iff it lies on the side `f` of `q` (`f` ordinal: the `2^k` sub-cells along the shared
+    edge), at the corner `f` of `q` (`f` cardinal: one sub-cell at the shared vertex) -/
+theorem facing_iff (n k : Nat) (p q Q : HashParts) (f : MW) (hn : 1 ≤ n) (hn2 : n * 2 ^ k ≤ 4294967296)
+    (hQ : Valid (n * 2 ^ k) Q) (hq : anc k Q = q) (hf : neighbourParts n q f = some p) (hne : q ≠ p) :
+    (∃ P, Valid (n * 2 ^ k) P ∧ anc k P = p ∧ Touch (n * 2 ^ k) Q P) ↔ OnSide (2 ^ k) f (Q.i % 2 ^ k) (Q.j % 2 ^ k) := by
+  have hM : 1 ≤ n * 2 ^ k := Nat.mul_pos hn (Nat.two_pow_pos k)
+  constructor
+  · rintro ⟨P, hP, hPa, ht⟩
+    have hne' : Q ≠ P := by
+      intro e; rw [e, hPa] at hq; exact hne hq.symm
+    obtain ⟨g, _, hg⟩ := neighbours_complete _ P Q hM hn2 hP hQ hne' (touch_symm ht)
+    have := (facing_complete n k p P Q g hn hn2 hP hPa hg (by rw [hq]; exact hne)).2 f
+    rw [hq] at this
+    exact this hf
+  · intro hs
+    obtain ⟨P, hP, hPa⟩ := facing_sound n k p q Q f hn hn2 hQ hq hf hs
+    exact ⟨P, neighbourParts_valid _ Q P f hM hn2 hQ hP, hPa, neighbour_touch _ Q P f hM hn2 hQ hP⟩
+
+/-! ## `delta_depth = 0` is excluded for a reason -/
+
+/-- the hypothesis `1 ≤ dd` of all the theorems cannot be dropped: with `delta_depth = 0` the corner masks
+    `x_mask(0)`, `y_mask(0)`, `xy_mask(0)` shift by 64 bits: `external_edge(depth 1, cell 10, 0)` panics in a debug build
+    and returns cells that are not the neighbours `[25, 8, 9, 27, 11, 5, 7]` in a release build -/
+example : externalEdge { debug := true, bmi := false } 1 10 0 false = none ∧
+    externalEdge { debug := false, bmi := false } 1 10 0 false =
+      some [18446744073709551615, 8, 12297829382473034411, 27, 11, 5, 6148914691236517207] ∧
+    (nbList 1 10 false).map (·.2) = [25, 8, 9, 27, 11, 5, 7] := by decide +kernel
+
 /-! ## tests by kernel evaluation -/
 
 /-- **test** of `external_edge_set` by evaluation (independent of the proofs): the sorted external edge is the list, in
@@ -356,6 +389,7 @@ def specSet (d dd hash : Nat) : List Nat :=
 def chkSet (cfg : Cfg) (d dd : Nat) : Bool :=
   (List.range (12 * 4 ^ d)).all fun h => externalEdge cfg d h dd true == some (specSet d dd h)
 
+/-- `dd = 1` at depth 0 by kernel evaluation; `#eval` confirms `(d, dd) = (0, 2), (1, 1), (1, 2), (2, 1)` -/
 example : chkSet {} 0 1 = true := by decide +kernel
 
 /-- the three lengths: depth 0; a cell with 7 neighbours (depth 2, cell 5); an ordinary cell -/
@@ -364,6 +398,7 @@ example : (externalList 0 3 2 false).length = 4 * 2 ^ 2 + 2 ∧ (externalList 2 
 
 end Hpx.EdgeExternal
 
+#print axioms Hpx.EdgeExternal.facing_iff
 #print axioms Hpx.EdgeExternal.external_edge_length
 #print axioms Hpx.EdgeExternal.external_edge_set
 #print axioms Hpx.EdgeExternal.external_edge_nodup
